@@ -246,6 +246,36 @@ def run(ctx, res):
             first = next(i for i in range(len(pico)) if back[i] != pico[i])
             res.fail('C16:png-full:%d' % trial, 'the memory image hidden in a full-size picture does not come back: first difference at 0x%x (the version byte is at 0x8000)' % first,
                      {'version_byte': pico[0x8000], 'length': len(pico)})
+    # a section object rendered, edited through the library (its own setters, the map's shared rows, raw cart writes), rendered again:
+    # the second text is the text of the bytes it holds NOW (= what a fresh object with the same bytes renders)
+    from props import C17
+    for h in range(ctx.budget(8, 80)):
+        g = U.make_game(regions={nm: U.rand_bytes(rng, sz) for nm, sz in U.REGION_SIZES}, code=b'', version=8)
+        secs = {'gfx': g.gfx, 'map': g.map, 'gff': g.gff, 'sfx': g.sfx, 'music': g.music}
+        first = {k: b''.join(o.to_lines()) for k, o in secs.items()}
+        done = []
+        for _ in range(rng.randrange(1, 6)):
+            if rng.random() < 0.3:
+                a = rng.randrange(0x4300 - 70)
+                g.write_cart_data(bytes(rng.randrange(256) for _ in range(rng.choice([1, 3, 64, 70]))), a)
+                done.append('write_cart_data@0x%x' % a)
+                continue
+            op = C17.gen_op(rng)
+            try:
+                C17.apply_impl(g, op)
+                done.append(op[0])
+            except Exception:
+                pass
+        res.evaluations += 1
+        res.count('render-edit-render')
+        res.nontrivial.add(('rer', h, tuple(done)))
+        for k, o in secs.items():
+            again = b''.join(o.to_lines())
+            fresh = b''.join(type(o)(data=bytes(o._data), version=8).to_lines())
+            if again != fresh:
+                res.fail('C16:render-edit-render:%s:%d' % (k, h), 'after %s the %s text rendered by the same section object is not the text of its '
+                         'current bytes (stale text from the first rendering?)' % (done, k), {'section': k, 'ops': done})
+                break
     # fixtures written by PICO-8: same cart as .p8 and .p8.png loads to identical contents
     from pico8.game import file as gfile
     td = os.path.join(REPO, 'tests', 'testdata')
